@@ -36,7 +36,7 @@ func init() {
 	register(&c16{base{
 		id:          "C16",
 		level:       lvlExploration,
-		rule:        "each case protects two files of high-entropy content (half of the grids with slices that are CRC-32 twins of their neighbour: equal CRC, different bytes) (A is edited, B is a bystander) with one slice size and walks the complete edit grid on A: insertion and deletion at EVERY position 0..len (stride 1 for the grid slice sizes) x lengths {1,2,3,S-1,S,S+1,2S+1}, plus A's content under B's name, B's under A's and both swapped. After each edit the real par2.Verify must count at least the untouched slices (known by construction from the segment model and cross-checked against the closed formula for touched slices) and at most the slices a brute-force finder locates; every n-th edit is also repaired with exactly max(t,1) recovery blocks left. An edit whose random content accidentally contains a duplicate window that makes an independent skip-on-hit scan miss a witness is counted as coincidence, not judged. A key is (slice size, file length, edit kind, position, length). Half of the random grids also protect an intact third file (a copy of A or A's leading slices): the lower bound is the witness set closed under equal slice content. Further edits per grid: CRC-32-preserving 6-byte overwrites, inserted CRC twins of whole slices, bytes in front of a file shorter than a slice, pairs of compensating cut/insert edits of equal length",
+		rule:        "each case protects two files of high-entropy content (half of the grids with slices that are CRC-32 twins of their neighbour: equal CRC, different bytes) (A is edited, B is a bystander) with one slice size and walks the complete edit grid on A: insertion and deletion at EVERY position 0..len (stride 1 for the grid slice sizes) x lengths {1,2,3,S-1,S,S+1,2S+1}, plus A's content under B's name, B's under A's and both swapped. After each edit the real par2.Verify must count at least the untouched slices (known by construction from the segment model and cross-checked against the closed formula for touched slices) and at most the slices a brute-force finder locates; every n-th edit is also repaired with exactly max(t,1) recovery blocks left. An edit whose random content accidentally contains a duplicate window that makes an independent skip-on-hit scan miss a witness is counted as coincidence, not judged. A key is (slice size, file length, edit kind, position, length). Half of the random grids also protect an intact third file (a copy of A or A's leading slices): the lower bound is the witness set closed under equal slice content. Further edits per grid: CRC-32-preserving 6-byte overwrites, inserted CRC twins of whole slices, bytes in front of a file shorter than a slice, pairs of compensating cut/insert edits of equal length. Every third edit that touches no slice is repaired with all recovery files removed (double check alternating).",
 		assumptions: append([]string{"content is random, so slices are unique up to accidental 4-byte coincidences, which are detected with the brute-force match table and set aside"}, commonAssumptions...),
 		opts:        core.WorkerOpts{CrashIsViolation: true, WallSeconds: 2400, Exhaustive: true, Extra: map[string]interface{}{"exhaustive_subspace": "for each listed (slice size, file length) with stride 1: every edit position 0..len x the listed lengths, insertions and deletions"}},
 	}})
